@@ -7,7 +7,8 @@
        not a file URL, or two slashes follow "file:"),
      - on file records (RC8_step_file, file_op8): besides the query / fragment setters, the port and credential setters
        of both APIs (refused), Url::set_scheme and quirks protocol (file + host -> special scheme; refused without a
-       host), Url::set_host(None).
+       host), Url::set_host(None); (RC8_step_file_path, file_path_op) quirks pathname with every argument and
+       Url::set_path when the record has a host or the argument starts with a slash, the result outside Known_file_drive.
    Every ReachC8 record is CanonF, hence a fixpoint of re-parsing, well-formed and ASCII; ReachC7 < ReachC8 < Reachable4. *)
 From RU Require Import Proofs.C15_Ser.
 From Coq Require Import String.
@@ -23,7 +24,7 @@ From RU Require Import Base.Prelude Base.Utf8 Base.Utf8Facts Base.Outcome_c15 Mo
   Proofs.C02_SetHostNone Proofs.C02_SetPathNoAuth Proofs.C02_SetPathOpaque Proofs.C02_Reach5
   Proofs.C02_JoinAbs Proofs.C02_JoinPath Proofs.C02_Segments Proofs.C02_SegmentsCanon Proofs.C02_Reach6 Proofs.C02_Ovr
   Proofs.C02_Reach7 Proofs.C02_File Proofs.C02_FileL1 Proofs.C02_FileCanon Proofs.C02_FileParse Proofs.C02_FileSet
-  Proofs.C02_FileHost Proofs.C02_Reach8 Proofs.C02_FileOps Proofs.C02_FileJoin.
+  Proofs.C02_FileHost Proofs.C02_Reach8 Proofs.C02_FileOps Proofs.C02_FileJoin Proofs.C02_FileSetPath.
 Open Scope N_scope.
 Open Scope list_scope.
 
@@ -31,6 +32,15 @@ Open Scope list_scope.
 Definition file_op8 (o : op) : bool :=
   file_tail_op o || file_refused_op o
   || match o with OSetScheme _ | OQProtocol _ | OSetHost None => true | _ => false end.
+
+(* the path setters covered on file records: quirks pathname with every argument; Url::set_path when the record has a
+   host or the argument starts with a slash *)
+Definition file_path_op (u : url) (o : op) : bool :=
+  match o with
+  | OSetPath x => has_host u || lead_slash x
+  | OQPathname _ => true
+  | _ => false
+  end.
 
 Section ReachC8.
 Variable dbg : bool.
@@ -71,6 +81,9 @@ Inductive ReachC8 : url -> Prop :=
 | RC8_step_file u o u' :                     (* NEW: more operations on a file record *)
     ReachC8 u -> is_file u = true -> file_op8 o = true -> op_args_ok o ->
     apply_op dbg hp hpo hd u o = Some u' -> nlen (ser u') <= U32_MAX_P -> ReachC8 u'
+| RC8_step_file_path u o u' :                (* NEW: the path setters on a file record *)
+    ReachC8 u -> is_file u = true -> file_path_op u o = true -> op_args_ok o ->
+    apply_op dbg hp hpo hd u o = Some u' -> nlen (ser u') <= U32_MAX_P -> Known_file_drive u' = false -> ReachC8 u'
 | RC8_qpm u ops u' :
     ReachC8 u -> Forall op_ok ops -> query_pairs_session dbg u ops = Some u' ->
     nlen (ser u') <= U32_MAX_P -> ReachC8 u'.
@@ -109,11 +122,20 @@ Proof using HOK HRT.
     destruct (set_scheme_File dbg hp hpo hd u _ u' s1 C E Hb) as [-> | C']; [right; exact C | left; exact C'].
 Qed.
 
+Theorem step_file_path_File u o u' : FileCanon hp hd u -> file_path_op u o = true -> op_args_ok o ->
+  apply_op dbg hp hpo hd u o = Some u' -> nlen (ser u') <= U32_MAX_P -> Known_file_drive u' = false -> FileCanon hp hd u'.
+Proof.
+  intros C Ht Ha Ho Hb Hk. destruct o; try discriminate Ht; cbn [apply_op op_args_ok file_path_op] in *.
+  - exact (set_path_File dbg hp hpo hd u p u' C Ha Ht Ho Hb Hk).
+  - exact (q_set_pathname_File dbg hp hpo hd u s u' C Ha Ho Hb Hk).
+Qed.
+
 Theorem ReachC8_CanonF u : ReachC8 u -> CanonF u.
 Proof using HOK HNE HW HRT HAb.
   induction 1 as [ovr input u Hu Hp Hk | ovr b input u Hr IH Hf Hu Ht Hp | ovr b input u Hr IH Hf Hu Ht Hp
                  | ovr b input u Hr Hu Ht Hp | ovr b input u Hr Hu Ht Hp Hk | ovr b input u Hr IH Hf Hu Hp Hk
-                 | u o u' Hr IH Hf Ha Hk Ho Hb | u o u' Hr IH Hf Ht Ha Ho Hb | u ops u' Hr IH Hops Hs Hb].
+                 | u o u' Hr IH Hf Ha Hk Ho Hb | u o u' Hr IH Hf Ht Ha Ho Hb | u o u' Hr IH Hf Ht Ha Ho Hb Hk'
+                 | u ops u' Hr IH Hops Hs Hb].
   - exact (parse_CanonF dbg hp hpo hd HOK HNE HW ovr input u Hu Hp Hk).
   - left. exact (join_rel_Canon_g dbg hp hpo hd HRT HAb ovr b input u (CanonF_nonfile hp hpo hd b IH Hf) Hu Ht Hp).
   - left. exact (join_nonfile_Canon_g dbg hp hpo hd HRT HAb ovr b input u (CanonF_nonfile hp hpo hd b IH Hf) Hu Ht Hp).
@@ -126,6 +148,7 @@ Proof using HOK HNE HW HRT HAb.
     + right. exact (join_file_base dbg hp hpo hd HRT HAb (proj1 HNE) HW ovr b input u Cb Hu En Hp Hk).
   - left. exact (canon_step_all dbg hp hpo hd HOK HNE u o u' (CanonF_nonfile hp hpo hd u IH Hf) Ha Hk Ho Hb).
   - exact (step_file8_CanonF u o u' (CanonF_file hp hpo hd u IH Hf) Ht Ha Ho Hb).
+  - right. exact (step_file_path_File u o u' (CanonF_file hp hpo hd u IH Hf) Ht Ha Ho Hb Hk').
   - destruct IH as [C|C].
     + left. exact (qpm_Canon dbg hp hpo hd HRT u ops u' C Hops Hs Hb).
     + right. exact (qpm_File dbg hp hpo hd HRT u ops u' C Hops Hs Hb).
@@ -170,12 +193,31 @@ Proof.
   rewrite (file_not_leads_ss ho segs last q f K). rewrite andb_false_r. reflexivity.
 Qed.
 
+Lemma file_not_cbb ho T q f : is_cbb (file_curl hd ho T q f) = false.
+Proof.
+  unfold is_cbb, file_curl, qf_url. cbn [scheme_end ser].
+  unfold file_pre, file_front, s_file_css, s_css. rewrite <- !app_assoc.
+  change (s_file ++ [58; 47; 47] ++ fhost_text hd ho ++ T ++ qf_text q f)
+    with ((s_file ++ [58]) ++ 47 :: 47 :: fhost_text hd ho ++ T ++ qf_text q f).
+  change (4 + 1) with (nlen (s_file ++ [58])). rewrite nskipn_app_len. reflexivity.
+Qed.
+
+Lemma file_path_op_unknown u o : FileCanon hp hd u -> file_path_op u o = true -> known_step3 dbg hp hpo hd u o = false.
+Proof.
+  intros [ho segs last q f K] Ht.
+  unfold known_step3, known_step2, known_step, Known_F_C03_5, Known_F_C02_3, Known_F_C02_2, Known_F_C02_8, Known_F_C02_4,
+    Known_F_C02_9, Known_F_C02_10, has_marker.
+  rewrite file_has_authority_b. cbn [negb andb orb].
+  destruct o; try discriminate Ht; rewrite ?file_not_cbb; reflexivity.
+Qed.
+
 Theorem ReachC8_Reachable4 u : ReachC8 u -> Reachable4 dbg hp hpo hd u.
 Proof using HOK HNE HW HRT HAb.
   intros H. pose proof (CanonF_not_drive hp hpo hd u (ReachC8_CanonF u H)) as Hd. revert Hd.
   induction H as [ovr input u Hu Hp Hk | ovr b input u Hr IH Hf Hu Ht Hp | ovr b input u Hr IH Hf Hu Ht Hp
                  | ovr b input u Hr Hu Ht Hp | ovr b input u Hr Hu Ht Hp Hk | ovr b input u Hr IH Hf Hu Hp Hk
-                 | u o u' Hr IH Hf Ha Hk Ho Hb | u o u' Hr IH Hf Ht Ha Ho Hb | u ops u' Hr IH Hops Hs Hb]; intros Hd.
+                 | u o u' Hr IH Hf Ha Hk Ho Hb | u o u' Hr IH Hf Ht Ha Ho Hb | u o u' Hr IH Hf Ht Ha Ho Hb Hk'
+                 | u ops u' Hr IH Hops Hs Hb]; intros Hd.
   - exact (R4_parse dbg hp hpo hd ovr input u Hu Hp Hk).
   - exact (R4_join dbg hp hpo hd ovr b input u (IH (CanonF_not_drive hp hpo hd b (ReachC8_CanonF b Hr))) Hu Hp Hd).
   - exact (R4_join dbg hp hpo hd ovr b input u (IH (CanonF_not_drive hp hpo hd b (ReachC8_CanonF b Hr))) Hu Hp Hd).
@@ -185,6 +227,8 @@ Proof using HOK HNE HW HRT HAb.
   - exact (R4_step dbg hp hpo hd u o u' (IH (CanonF_not_drive hp hpo hd u (ReachC8_CanonF u Hr))) Ha Hk Ho Hd).
   - exact (R4_step dbg hp hpo hd u o u' (IH (CanonF_not_drive hp hpo hd u (ReachC8_CanonF u Hr))) Ha
              (file_op8_unknown u o (CanonF_file hp hpo hd u (ReachC8_CanonF u Hr) Hf) Ht) Ho Hd).
+  - exact (R4_step dbg hp hpo hd u o u' (IH (CanonF_not_drive hp hpo hd u (ReachC8_CanonF u Hr))) Ha
+             (file_path_op_unknown u o (CanonF_file hp hpo hd u (ReachC8_CanonF u Hr) Hf) Ht) Ho Hd).
   - exact (R4_qpm dbg hp hpo hd u ops u' (IH (CanonF_not_drive hp hpo hd u (ReachC8_CanonF u Hr))) Hops Hs Hd).
 Qed.
 
@@ -236,6 +280,19 @@ Example reach8_example :
   /\ m_is (m_hist "file://h.x/a b?q#f" [OSetScheme (B "https")]) "https://h.x/a%20b?q#f" = true
   /\ m_is (m_hist "file:///a" [OSetScheme (B "http"); OQProtocol (B "ws:")]) "file:///a" = true
   /\ m_is (m_hist "file://h.x/a?q" [OSetHost None]) "file:///a?q" = true
+  /\ m_is (m_hist "file://h.x/x" [OSetPath (B "a/../b?c")]) "file://h.x/b%3Fc" = true
+  /\ m_is (m_hist "file:///x" [OSetPath (B "\\a/../b")]) "file:///b" = true
+  /\ m_is (m_hist "file:///x" [OQPathname (B "a/../b#c")]) "file:///b%23c" = true
   /\ file_abs_ref (file_curl host_display None (B "/a") None None) (B "file://g.y/c")
+     && file_path_op (file_curl host_display None (B "/x") None None) (OSetPath (B "\\a/../b"))
      && file_op8 (OSetHost None) && file_op8 (OQProtocol (B "ws:")) && file_op8 (OSetPort (Some 8080)) = true.
+Proof. vm_compute. repeat split. Qed.
+
+(* why the premise of file_path_op for Url::set_path: on a file record without a host an argument without a leading
+   slash is merged differently - "a/../b" keeps "a" (the serialization "file://" ends with '/', parse_path_start adds
+   none, the first segment starts AT path_start and pop_path finds no slash in front of it); a fixpoint all the same *)
+Example file_set_path_no_slash :
+  m_is (m_hist "file:///x" [OSetPath (B "a/../b")]) "file:///a/b" = true
+  /\ m_is (m_hist "file:///x" [OSetPath (B "/a/../b")]) "file:///b" = true
+  /\ file_path_op (file_curl host_display None (B "/x") None None) (OSetPath (B "a/../b")) = false.
 Proof. vm_compute. repeat split. Qed.
